@@ -1045,7 +1045,10 @@ def _c08_oracle(ctx, orc):
 UTIL_CPUS = [("msp430", bytes([0x03, 0x43]), 1), ("z80", bytes([0x00]), 1), ("arm", bytes([0x00, 0x00, 0xa0, 0xe1]), 1),
              ("avr8", bytes([0x00, 0x00]), 2)]
 GEOMETRIES = [(0x0, 0x100), (0x8000, 0x8100), (0x8000, 0x10100), (0xfff0, 0x40), (0x1fffc, 0x8), (0xff00, 0x10080),
-              (0x10000, 0x10000), (0x7ffc, 0x20008), (0xc000, 0x14004)]
+              (0x10000, 0x10000), (0x7ffc, 0x20008), (0xc000, 0x14004),
+              # the last pages of the address space (page arithmetic in 32 bits wraps here); the image ends below
+              # 0xffffffff because the per-CPU range loops never end there (known finding of C17)
+              (0xffff0000, 0x8000), (0xfffeff00, 0x200), (0xffff7ffc, 0x40)]
 
 
 def util_page_walk(ctx, orc):
